@@ -340,7 +340,9 @@ class Interp(Run, StmtMixin, ExprMixin, CallMixin, BuiltinMixin, LoopMixin, Spec
                 if (isinstance(nd, ast.For) and "for:" + ast.unparse(nd.iter) == rkey) or \
                         (isinstance(nd, ast.While) and "while:" + ast.unparse(nd.test) == rkey) or \
                         (isinstance(nd, ast.Assign) and rkind == "assign" and ast.unparse(nd.targets[0]) == rkey) or \
-                        (isinstance(nd, ast.If) and rkind == "if" and ast.unparse(nd.test) == rkey):
+                        (isinstance(nd, ast.If) and rkind == "if" and (
+                            ast.unparse(nd.test) == rkey
+                            or (rkey.endswith("*") and ast.unparse(nd.test).startswith(rkey[:-1])))):
                     matches.append(nd)
             matches.sort(key=lambda x: (x.lineno, x.col_offset))
             if want and len(matches) >= want:
@@ -352,7 +354,9 @@ class Interp(Run, StmtMixin, ExprMixin, CallMixin, BuiltinMixin, LoopMixin, Spec
                     region_node = nd
                 elif isinstance(nd, ast.Assign) and rkind == "assign" and ast.unparse(nd.targets[0]) == rkey:
                     region_node = nd
-                elif isinstance(nd, ast.If) and rkind == "if" and ast.unparse(nd.test) == rkey:
+                elif isinstance(nd, ast.If) and rkind == "if" and (
+                        ast.unparse(nd.test) == rkey
+                        or (rkey.endswith("*") and ast.unparse(nd.test).startswith(rkey[:-1]))):
                     region_node = nd
             if region_node is None:
                 raise LookupError(f"region {region} not found in {unit.target}")
@@ -522,7 +526,10 @@ class Interp(Run, StmtMixin, ExprMixin, CallMixin, BuiltinMixin, LoopMixin, Spec
             self.last_post_env["exc"] = payload.exc
         if not (kind == "exc" and payload.implicit and not unit.wd):
             self.check_preserved(unit.preserves, self.entry_heap.ver, "FRAME", "unit")
-            if not getattr(unit, "region", None) and unit.modifies != ["*"] and not unit.ghost.get("no_frame_check"):
+            if (not getattr(unit, "region", None) or unit.modifies is not None) and unit.modifies != ["*"] \
+                    and not unit.ghost.get("no_frame_check"):
+                # (a region unit that declares `modifies` gets the FRAME obligation too: its callers
+                # - loops and enclosing units that use it by contract - rely on that frame)
                 self.frame_obligation(env)
             elif unit.protects:
                 self.protect_obligation()
@@ -531,7 +538,7 @@ class Interp(Run, StmtMixin, ExprMixin, CallMixin, BuiltinMixin, LoopMixin, Spec
             for i, cl in enumerate(unit.ensures):
                 lab, text, prop = named(cl)
                 only = self.opts.get("prop")
-                if only is not None and prop is not None and prop != only:
+                if only is not None and prop is not None and only not in prop.split("|"):
                     continue
                 t, side = self.spec(text, env)
                 self.assume_all(side)
@@ -568,7 +575,7 @@ class Interp(Run, StmtMixin, ExprMixin, CallMixin, BuiltinMixin, LoopMixin, Spec
                 for i, cl in enumerate(clauses):
                     lab, text, prop = named(cl)
                     only = self.opts.get("prop")
-                    if only is not None and prop is not None and prop != only:
+                    if only is not None and prop is not None and only not in prop.split("|"):
                         continue
                     t, side = self.spec(text, env)
                     self.assume_all(side)
